@@ -88,8 +88,8 @@ FAMILIES = {
                      variants='dividends', bases=1, obs=True),
     'events_split_t': dict(cfg=dict(dayset=3, buy=(0, 1, 2), sell=(0, 1), events=(1, 2, 3), maxevents=1, grid=2,
                                     splits=(1, 3), maxsplits=1, maxcells=4, timings=BOTH), variants='none', bases=1, obs=True),
-    # two securities: independence
-    'two_q': dict(cfg=dict(secs='SecSeqAB', dayset=7, buy=(0, 2), sell=(0, 1)), variants='orders', bases=1),
+    # two securities: independence (a purchase of 1 wholly reserved for its own day's sale next to one that is not)
+    'two_q': dict(cfg=dict(secs='SecSeqAB', dayset=7, buy=(0, 1, 2), sell=(0, 1)), variants='orders', bases=1),
     # two securities, a split of either at every position: one security's split never touches the other
     'two_split_q': dict(cfg=dict(secs='SecSeqAB', dayset=7, buy=(0, 2), sell=(0, 1), splits=(1,), maxsplits=1, timings=BOTH),
                         variants='orders', bases=1),
